@@ -113,6 +113,16 @@ func signedarea(polygon []Point) float64 {
 // This has not been thoroughly tested.
 func (p Polygon) Centroid() Point {
 	var A, xA, yA float64
+	// The sums are taken about a vertex of the polygon rather than about the
+	// coordinate origin: far from the origin the products of absolute
+	// coordinates cancel catastrophically.
+	var o Point
+	for _, r := range p {
+		if len(r) > 0 {
+			o = r[0]
+			break
+		}
+	}
 	for _, r := range p {
 		a := signedarea(r)
 		cx, cy := 0., 0.
@@ -120,10 +130,10 @@ func (p Polygon) Centroid() Point {
 			r = append(r, r[0])
 		}
 		for i := 0; i < len(r)-1; i++ {
-			cx += (r[i].X + r[i+1].X) *
-				(r[i].X*r[i+1].Y - r[i+1].X*r[i].Y)
-			cy += (r[i].Y + r[i+1].Y) *
-				(r[i].X*r[i+1].Y - r[i+1].X*r[i].Y)
+			x0, y0 := r[i].X-o.X, r[i].Y-o.Y
+			x1, y1 := r[i+1].X-o.X, r[i+1].Y-o.Y
+			cx += (x0 + x1) * (x0*y1 - x1*y0)
+			cy += (y0 + y1) * (x0*y1 - x1*y0)
 		}
 		cx /= 6 * a
 		cy /= 6 * a
@@ -131,5 +141,5 @@ func (p Polygon) Centroid() Point {
 		xA += cx * a
 		yA += cy * a
 	}
-	return Point{X: xA / A, Y: yA / A}
+	return Point{X: xA/A + o.X, Y: yA/A + o.Y}
 }
